@@ -284,7 +284,7 @@ def _cumsum_case(draw, tier):
   shape = [draw(st.integers(1, 7 if tier == 'quick' else 12)) for _ in range(nd)]
   ax = draw(st.integers(0, nd - 1))
   return {'shape': shape, 'axis': ax - nd if draw(st.booleans()) else ax, 'seed': draw(st.integers(0, 9999)),
-          'dtype': draw(st.sampled_from(['f8', 'f8', 'f4'])), 'kind': draw(st.sampled_from(['unit', 'ones', 'random']))}
+          'dtype': draw(st.sampled_from(['f8', 'f8', 'f4'])), 'kind': draw(st.sampled_from(['unit', 'ones', 'random', 'positive_wide']))}
 
 
 def run_cumsum(case):
@@ -298,6 +298,11 @@ def run_cumsum(case):
     x[tuple(int(rng.integers(0, s)) for s in shape)] = 1.0
   elif case['kind'] == 'ones':
     x = np.ones(shape)
+  elif case['kind'] == 'positive_wide':
+    # positive data spanning 8 decades along the summed axis (e.g. humidity or mass from the model top to the surface):
+    # every partial sum is a sum of positive terms, so each strategy must be accurate entry by entry
+    ramp = np.moveaxis(np.linspace(0.0, 8.0, shape[ax]).reshape((-1,) + (1,) * (nd - 1)), 0, ax)
+    x = 10.0 ** (-ramp if rng.integers(0, 2) else ramp - 8.0) * rng.uniform(0.5, 1.5, size=shape)
   else:
     x = rng.standard_normal(shape)
   x = x.astype(case['dtype'])
@@ -331,6 +336,15 @@ def run_cumsum(case):
       return out
     if got_f.dtype != x.dtype and case['dtype'] == 'f8':
       return out.fail(what=f'cumsum(method={method}) changed float64 data to {got_f.dtype}', **extra)
+    if case['kind'] == 'positive_wide':
+      eps = np.finfo(np.float64 if case['dtype'] == 'f8' else np.float32).eps
+      for what, got, ref_ in ((f'cumsum(method={method})', got_f, fwd), (f'reverse_cumsum(method={method})', got_r, rev)):
+        rel = np.abs(np.asarray(got, dtype=np.float64) - ref_) / ref_
+        if not np.all(rel <= 16 * n * eps):
+          idx = [int(i) for i in np.unravel_index(int(np.argmax(rel)), rel.shape)]
+          return out.fail(what=what + ' of positive data is not accurate entry by entry (a sum of positive terms '
+                          'has relative error <= n eps; cancellation against the column total is not rounding)',
+                          index=idx, relerr=float(rel.max()), bound=float(16 * n * eps), **extra)
   got = np.asarray(jnu._single_device_dot_cumsum(x, axis))   # pylint: disable=protected-access
   gotr = np.asarray(jnu._single_device_dot_cumsum(x, axis, reverse=True))   # pylint: disable=protected-access
   if not _cmp(out, '_single_device_dot_cumsum != loop reference', got, fwd, scale, rtol, **extra):
